@@ -16,6 +16,8 @@ func main() {
 		cmdLexReplay(a)
 	case "lex-trace":
 		cmdLexTrace(a)
+	case "prog-replay":
+		cmdProgReplay(a)
 	case "replay":
 		cmdReplay(a)
 	case "lex-trace-check":
